@@ -29,7 +29,9 @@
    verdicts of a receive filter (chosen by TLC per invocation = the verdict script of the filter):
              c continue | s stop | t termination | hs hijack+stop | hc hijack+continue | d direct response+stop |
              ts TerminateStream then stop | ac TerminateStream from another goroutine, then continue |
-             rm re-match route (AfterRoute only) | rc re-choose host (AfterChooseHost only)
+             rm re-match route | rc re-choose host: honoured only when returned in the AfterRoute resp. AfterChooseHost
+             pass (receiverFilterStatusHandler); returned in any other receive phase the verdict is invalid: the pass
+             ends there (as for stop), nothing is re-entered, and the next pass starts at the first filter again
    verdicts of a send filter: c | s | t *)
 EXTENDS Integers, Sequences, FiniteSets, TLC, Json
 
@@ -79,10 +81,14 @@ ATermCode(i)  == 580 + i
 AsyncCode     == 598
 ResetCode(e)  == IF e = "atermC" THEN 504 ELSE 502
 
-RecvVerdicts(k) == {"c", "s", "t", "hs", "hc", "d", "ts", "ac"} \cup (IF k = "R" THEN {"rm"} ELSE {}) \cup (IF k = "H" THEN {"rc"} ELSE {})
+RecvVerdicts(k) == {"c", "s", "t", "hs", "hc", "d", "ts", "ac", "rm", "rc"}
+(* is a re-entry verdict honoured in phase p? *)
+Honoured(v, p) == \/ v = "rm" /\ (p = "R" \/ (p = "H" /\ "ReMatchHonouredAfterChooseHost" \in Defects))
+                  \/ v = "rc" /\ p = "H"
 SendVerdicts    == {"c", "s", "t"}
 (* only the "ok" environment explores answering filters: the others need the request to reach the upstream *)
-Allowed(e, k) == IF e = "ok" THEN RecvVerdicts(k) ELSE RecvVerdicts(k) \cap {"c", "s", "rm", "rc"}
+Allowed(e, k) == IF e = "ok" THEN RecvVerdicts(k)
+                 ELSE {"c", "s"} \cup { v \in {"rm", "rc"} : Honoured(v, k) }
 
 Succ(p) == CASE p = "B" -> "R" [] p = "R" -> "H" [] p = "H" -> "F" [] OTHER -> "F"
 
@@ -131,7 +137,7 @@ AfterRecv(p, c, ag, dir, hc) ==
 
 CanCallRecv(i, v) == /\ ph \in RecvKinds /\ i = NextIn(chain, ph, cur) /\ i # 0
                      /\ v \in Allowed(env, chain[i])
-                     /\ v \in {"rm", "rc"} => reentries < MaxReentry
+                     /\ (v \in {"rm", "rc"} /\ Honoured(v, ph)) => reentries < MaxReentry
 
 (* does TerminateStream succeed? not after response headers were set *)
 TermOk == direct = 0 /\ pend.code = 0
@@ -143,19 +149,22 @@ DoCallRecv(i, v) ==
         code   == CASE v \in {"hs", "hc"} -> HijackCode(i) [] v = "d" -> DirectCode(i)
                     [] v = "ts" -> TermCode(i) [] v = "ac" -> ATermCode(i) [] OTHER -> 0
         dir    == IF answers THEN code ELSE direct
-        stay   == v \in {"rm", "rc"}
+        stay   == v \in {"rm", "rc"} /\ Honoured(v, p)
+        invalid == v \in {"rm", "rc"} /\ ~Honoured(v, p)     \* ends the pass; chain.go returns without acting on it
         goesOn == v \in {"c", "hc", "ac"} /\ NextIn(chain, p, i + 1) # 0
         c      == IF goesOn THEN i + 1
                   ELSE IF stay THEN (IF "CursorResetOnReentry" \in Defects THEN 1 ELSE i)
+                  ELSE IF invalid /\ "InvalidReentryKeepsCursor" \in Defects THEN i
                   ELSE 1
-        ag     == CASE v = "rm" -> "R" [] v = "rc" -> "H" [] OTHER -> again
+        ag     == CASE stay /\ v = "rm" -> "R" [] stay /\ v = "rc" -> "H" [] OTHER -> again
         nx     == AfterRecv(p, c, ag, dir, hc)
     IN
     /\ log' = Append(log, [slot |-> i, v |-> v, pass |-> pass])
     /\ bad' = bad \cup (IF resumeAt # 0 /\ i # resumeAt THEN {"reentry-did-not-resume-at-requesting-filter"} ELSE {})
+                  \cup (IF ~goesOn /\ ~stay /\ v # "t" /\ c # 1 THEN {"next-pass-does-not-start-at-the-first-filter"} ELSE {})
     /\ resumeAt' = IF stay THEN i ELSE 0
     /\ reentries' = IF stay THEN reentries + 1 ELSE reentries
-    /\ alt' = (alt \/ v = "rm")
+    /\ alt' = (alt \/ (v = "rm" /\ (stay \/ p = "B")))   \* the filter also rewrote the header the route is matched on
     /\ hostChosen' = hc
     /\ denied' = (denied \/ (fwd = 0 /\ (answers \/ v = "t")))
     /\ answer' = IF answers THEN code ELSE answer
@@ -224,7 +233,9 @@ Spec == Init /\ [][Next]_vars
 (* order, and at most once per pass: within a pass the slots are strictly increasing *)
 OrderedOncePerPass == \A j, k \in DOMAIN log : (j < k /\ log[j].pass = log[k].pass) => log[j].slot < log[k].slot
 (* passes visit the phases in the configured order of the phases, except for honoured re-entries *)
-ReentryResumes == bad = {}
+ReentryResumes == "reentry-did-not-resume-at-requesting-filter" \notin bad
+(* no receive filter is skipped: a pass that is not a honoured re-entry starts at the first filter *)
+NoFilterSkipped == "next-pass-does-not-start-at-the-first-filter" \notin bad
 (* a receive filter that answered or terminated before forwarding: no upstream attempt, ever *)
 DeniedNeverForwarded == denied => fwd = 0
 AtMostOneReply == replies <= 1
